@@ -150,6 +150,8 @@ Spec == Init /\ [][Next]_vars /\ WF_vars(Next)
 \* every scenario outside the two known defects is decided within the contract
 Decided == pc = "kf" => (KF_form \/ KF_cookie)
 NoStuck == <>(pc # "start")
+\* the same as a state predicate (used by the Gen configuration, which has no fairness)
+Covered == pc = "start" => ENABLED Next
 TypeOK == pc \in {"start", "done", "kf"} /\ C!TypeOK
 
 TokRec(t) == [c |-> t.c, p |-> t.p]
